@@ -57,12 +57,22 @@ CONFIGS = {
               "tracing-subscriber/json tracing-subscriber/env-filter tracing-subscriber/registry tracing-subscriber/parking_lot"],
         rustflags="",
         crates=["tracing_subscriber"]),
-    "fixtures": dict(
-        kind="fixture",
-        args=["--workspace"],
-        rustflags="",
-        crates=["fx_macros", "fx_macros_log", "fx_instrument"]),
+    # fixture configs may be suffixed ":<seed>:<extra>" to add <extra> seeded random macro invocations
+    "fx": dict(kind="fixture", args=["-p", "fx_macros"], rustflags="", crates=["fx_macros"]),
+    "fx_log": dict(kind="fixture", args=["-p", "fx_macros_log"], rustflags="", crates=["fx_macros_log"]),
+    "fx_instrument": dict(kind="fixture", args=["-p", "fx_instrument"], rustflags="", crates=["fx_instrument"]),
+    # "tfeat:<feature of crate tracing>:dbg|nodbg" — crate `tracing` alone with one extra feature
+    "tfeat": dict(kind="repo", args=["-p", "tracing"], rustflags="", crates=["tracing"]),
 }
+
+
+def base_config(config):
+    return config.split(":")[0]
+
+
+def fixture_dir(config, key=None):
+    key = key or tree_key()
+    return os.path.join(CACHE, "fxwork-%s-%s" % (key, config.replace(":", "_")))
 
 
 def _sha_files(root, files):
@@ -132,13 +142,13 @@ def _prune(keep_key):
 def generate(config, key=None, verbose=True):
     """Make sure facts for (current tree, config) exist; return the directory."""
     key = key or tree_key()
-    cfg = CONFIGS[config]
+    cfg = CONFIGS[base_config(config)]
     os.makedirs(CACHE, exist_ok=True)
-    out = os.path.join(CACHE, "facts-%s-%s" % (key, config))
+    out = os.path.join(CACHE, "facts-%s-%s" % (key, config.replace(":", "_")))
     stamp = os.path.join(out, "OK")
     if os.path.exists(stamp):
         return out
-    lock = open(os.path.join(CACHE, "lock-%s" % config), "w")
+    lock = open(os.path.join(CACHE, "lock-%s" % base_config(config)), "w")
     fcntl.flock(lock, fcntl.LOCK_EX)
     try:
         if os.path.exists(stamp):
@@ -147,7 +157,7 @@ def generate(config, key=None, verbose=True):
         t0 = time.time()
         shutil.rmtree(out, ignore_errors=True)
         os.makedirs(out)
-        tgt = os.path.join(CACHE, "tgt-%s" % config)
+        tgt = os.path.join(CACHE, "tgt-%s" % base_config(config))
         # cargo's freshness cache would skip the wrapper: drop the fingerprints of
         # every workspace member / fixture crate so they are re-checked through factgen.
         for fp in glob.glob(os.path.join(tgt, "debug/.fingerprint/tracing*")) + \
@@ -163,12 +173,39 @@ def generate(config, key=None, verbose=True):
         env["FACTGEN_OUT"] = out
         env["FACTGEN_CONFIG"] = config
         env["FACTGEN_CRATES"] = ",".join(cfg["crates"])
+        extra_args = []
+        if base_config(config) == "tfeat":
+            _, feat, dbg = config.split(":")
+            extra_args = ["--features", "tracing/" + feat]
+            if dbg == "nodbg":
+                env["RUSTFLAGS"] += " -Cdebug-assertions=off"
+                env["CARGO_TARGET_DIR"] = tgt + "-nodbg"
         if cfg["kind"] == "repo":
             cwd = REPO
         else:
-            cwd = os.path.join(VERIF, "fixtures")
+            # work on a copy of /verif/fixtures: generate the macro corpus there, point the path deps at REPO
+            cwd = fixture_dir(config, key)
+            shutil.rmtree(cwd, ignore_errors=True)
+            shutil.copytree(os.path.join(VERIF, "fixtures"), cwd,
+                            ignore=shutil.ignore_patterns("target", "gen", "Cargo.lock", "__pycache__"))
+            parts = config.split(":")
+            seed = parts[1] if len(parts) > 1 else "0"
+            extra = parts[2] if len(parts) > 2 else "0"
+            subprocess.run([sys.executable, os.path.join(cwd, "gen_fixtures.py"), os.path.join(cwd, "gen"), seed, extra],
+                           check=True, capture_output=True)
+            if REPO != "/repo":
+                for dp, dn, fn in os.walk(cwd):
+                    for f in fn:
+                        if f == "Cargo.toml":
+                            pth = os.path.join(dp, f)
+                            txt = open(pth).read()
+                            open(pth, "w").write(txt.replace('path = "/repo/', 'path = "%s/' % REPO))
             shutil.copy(os.path.join(REPO, "Cargo.lock"), os.path.join(cwd, "Cargo.lock"))
-        cmd = ["cargo", "+nightly", "check", "--offline"] + cfg["args"]
+            # old work dirs of other tree keys
+            for d in glob.glob(os.path.join(CACHE, "fxwork-*")):
+                if ("-%s-" % key) not in os.path.basename(d) and time.time() - os.path.getmtime(d) > 3600:
+                    shutil.rmtree(d, ignore_errors=True)
+        cmd = ["cargo", "+nightly", "check", "--offline"] + cfg["args"] + extra_args
         r = subprocess.run(cmd, cwd=cwd, env=env, capture_output=True, text=True)
         if r.returncode != 0:
             sys.stderr.write(r.stderr[-6000:])
@@ -190,7 +227,7 @@ def generate(config, key=None, verbose=True):
 def load_raw(config, key=None):
     d = generate(config, key)
     crates = {}
-    for c in CONFIGS[config]["crates"]:
+    for c in CONFIGS[base_config(config)]["crates"]:
         files = sorted(glob.glob(os.path.join(d, c + ".*.json")))
         # several processes may have compiled the same crate (lib + proc-macro host); take the largest
         f = max(files, key=os.path.getsize)
